@@ -653,8 +653,9 @@ Record ospan := { o_tid : N; o_sid : N; o_nilattr : bool }.
 Record ores := { r_has_resource : bool; r_spans : list ospan }.
 
 Definition ospan_event (has_resource : bool) (s : ospan) : span_event :=
-  if negb has_resource then EvPanic             (* res.Resource.Attributes: nil pointer *)
-  else if o_nilattr s then EvPanic              (* kv.Value.Value: nil pointer *)
+  (* [has_resource] no longer matters: res.GetResource().GetAttributes() reads an absent resource message as a resource without
+     attributes (repaired in /repo by builder C06, defect otlp-group-without-resource; until then res.Resource.Attributes = nil pointer) *)
+  if o_nilattr s then EvPanic                   (* kv.Value.Value: nil pointer *)
   else EvSpan {| si_tid := o_tid s; si_sid := o_sid s; si_keys := 4; si_bytes := 300; si_abytes := 240 |}.
 
 Definition otlp_events (rs : list ores) : list span_event :=
@@ -733,9 +734,10 @@ Definition expect_is_error (e : expect) : bool :=
 (* a Zipkin span is malformed when a field cannot be decoded or an id is missing *)
 Definition zspan_malformed (s : zspan) : bool :=
   match decode_zspan s with inr _ => true | inl ids => negb (id_ok ids) end.
-(* an OTLP span is malformed when its resource is absent, an attribute has no value, or an id has the wrong width *)
+(* an OTLP span is malformed when an attribute has no value or an id has the wrong width (an absent resource message is legal
+   protobuf and legal OTLP -- "if this field is not set then no resource info is known" -- and is accepted since the repair) *)
 Definition ospan_malformed (has_resource : bool) (s : ospan) : bool :=
-  negb has_resource || o_nilattr s || negb (id_ok (o_tid s, o_sid s)).
+  o_nilattr s || negb (id_ok (o_tid s, o_sid s)).
 Definition name_ok (name : string) : bool := match name_labels name with NameOk => true | _ => false end.
 Definition ingest_malformed (ct from until name : string) (wire_ok : bool) : bool :=
   String.eqb from "" || String.eqb name "" || String.eqb until ""
